@@ -1,6 +1,7 @@
 package props
 
 import (
+	"bytes"
 	"context"
 	"encoding/json"
 	"fmt"
@@ -34,7 +35,7 @@ func (c05) Rule() string {
 }
 func (c05) Batches(tier string) int { return 32 }
 func (c05) Required(string) []string {
-	return []string{"compiles", "compiled_ok", "scans", "parse_errors", "compile_errors", "boundary_cases", "mutations", "random_inputs", "opt.noopt", "opt.limit1", "trace_on", "modules.source", "modules.builtin", "symtab.eval-session", "symtab.disabled", "limit_rejections", "option_combinations"}
+	return []string{"compiles", "compiled_ok", "scans", "parse_errors", "compile_errors", "boundary_cases", "mutations", "random_inputs", "opt.noopt", "opt.limit1", "trace_on", "modules.source", "modules.builtin", "symtab.eval-session", "symtab.disabled", "limit_rejections", "option_combinations", "convergence_checks"}
 }
 func (c05) Assumptions() []string {
 	return []string{"Go stack exhaustion by nesting deeper than the explored bound (2000) is a fatal error outside the explored sizes", "a watchdog firing twice on the same input is reported as a hang; once is inconclusive"}
@@ -298,9 +299,23 @@ var c05comboProbes = []string{
 	"for i := 0; i < 3; i++ {\n  if i == 1 {\n    continue\n  }\n}\nreturn 1", "try {\n  throw 1\n} catch e {\n  return e\n} finally {\n}",
 	"const k = 2\nf := func(a, ...b) {\n  return a ? b : k * 3\n}\nreturn f(1 + 2, 3)", "m := import(\"good\")\nreturn m",
 	"return 1 + ", "x := := 1", "return undefinedName",
+	"if false {\n  x := 1\n}\nreturn 2", "if 1 - 1 {\n  return 1\n} else {\n  return 2\n}", "x := 5\nif \"\" {\n  x = 1\n}\nif undefined {\n  x = 2\n} else if 0.0 {\n  x = 3\n}\nreturn x",
+	"y := false ? 1 : 2\nfor false {\n  y++\n}\nreturn true ? y : 0", "if true {\n  return 1\n} else {\n  return 2\n}", "f := func() {\n  if !true {\n    return 1\n  }\n  return 0 || 3\n}\nreturn f()",
 	"return import(\"./a.ugo\")", "return import(\"./self.ugo\")", "return import(\"./c1.ugo\")", "return import(\"./ok.ugo\")",
 	"return [import(\"./leaf.ugo\"), import(\"./d1.ugo\"), import(\"./ok.ugo\")]", "return import(\"./broken.ugo\")", "return import(\"./missing.ugo\")",
 	"return import(\"./mix.ugo\")", "f := func() {\n  return import(\"./b.ugo\")\n}\nreturn 1", "return import(\"/virtual/dir/a.ugo\")",
+}
+
+// c05passes compiles src with the given optimizer budget and counts the optimizer passes reported in the trace.
+func c05passes(src string, limit int) (n int, ok bool) {
+	var buf bytes.Buffer
+	_, _, pan, _, hung := compileGuarded(func() (*ugo.Bytecode, error) {
+		return ugo.Compile([]byte(src), ugo.CompilerOptions{OptimizerLimit: limit, Trace: &buf, TraceOptimizer: true, ModuleMap: c05sourceModules()})
+	})
+	if pan != "" || hung {
+		return 0, false
+	}
+	return strings.Count(buf.String(), ". pass"), true
 }
 
 // compileGuarded runs fn under recover and a watchdog.
@@ -717,6 +732,17 @@ func (m c05) Run(c *core.Ctx) {
 		for _, o := range combos {
 			m.one(c, []byte(src), o, "option-combination")
 			c.Count("option_combinations")
+		}
+		// convergence: the optimizer stops when a pass changes nothing, so on a small program the number of passes
+		// does not depend on how large the budget is (a pass count that grows with the budget means Compile's running
+		// time is proportional to OptimizerLimit, i.e. it does not terminate in practice for a large one)
+		p1, ok1 := c05passes(src, 3000)
+		p2, ok2 := c05passes(src, 9000)
+		if ok1 && ok2 {
+			c.Count("convergence_checks")
+			if p1 != p2 {
+				c.Violation("C05|optimizer-does-not-converge", fmt.Sprintf("the optimizer makes %d passes with budget 3000 and %d with budget 9000 on a %d-byte script", p1, p2, len(src)), c05wit{Options: "OptimizerLimit 3000 vs 9000, TraceOptimizer", Why: "pass count grows with the budget", Input: src})
+			}
 		}
 		c.Nontrivial(fmt.Sprintf("combo %d", pi))
 	}
